@@ -9,5 +9,6 @@ Level == IF "ND_LEVEL" \in DOMAIN IOEnv THEN IOEnv.ND_LEVEL ELSE "node"
 ASSUME JsonSerialize(IOEnv.ND_OUT, SetToSeq(CASE Level = "handler" -> HRequests
                                               [] Level = "handler-wide" -> HRequestsWide
                                               [] Level = "handler-deep" -> HRequestsDeep
+                                              [] Level = "issue" -> IssueRequests
                                               [] OTHER -> Requests))
 =============================================================================
